@@ -121,11 +121,15 @@ func main() {
 		noEv     = flag.Bool("noevidence", false, "do not write evidence/replay files (used by self-tests on scratch copies)")
 		manifest = flag.Bool("manifest", false, "print MANIFEST.json generated from the property registry")
 		verbose  = flag.Bool("v", false, "print discharged obligations too")
+		allProps = flag.Bool("all", false, "run every claimed property in one process (no evidence written) and print, as JSON, the non-known violated/undecided obligations per property")
 	)
 	flag.Parse()
 	if *manifest {
 		printManifest()
 		return
+	}
+	if *allProps {
+		os.Exit(runAll(*repo, *verif))
 	}
 	if *replay != "" {
 		os.Exit(doReplay(*replay, *repo, *verif))
@@ -370,4 +374,46 @@ func doReplay(path, repo, verif string) int {
 	}
 	fmt.Printf("obligation %s | %s no longer exists on this tree\n", rf.Rule, rf.Key)
 	return 0
+}
+
+// runAll: every claimed property against one tree, in one process; used by
+// tools/seeded_matrix.py to record which checks catch which seeded change.
+func runAll(repo, verif string) int {
+	c := load(repo)
+	known := map[string]Finding{}
+	for _, f := range loadFindings(verif) {
+		if f.Status == "known" {
+			known[f.Rule+"|"+f.Key] = f
+		}
+	}
+	cache := map[string]ruleResult{}
+	out := map[string][]map[string]string{}
+	exit := 0
+	for _, pd := range props {
+		if len(pd.Rules) == 0 {
+			continue
+		}
+		out[pd.ID] = []map[string]string{}
+		for _, id := range pd.Rules {
+			res, ok := cache[id]
+			if !ok {
+				res = runRule(c, id)
+				cache[id] = res
+			}
+			for _, o := range res.Obligations {
+				if o.Status != Violated && o.Status != Undecided {
+					continue
+				}
+				if _, ok := matchKnown(known, o); ok {
+					continue
+				}
+				out[pd.ID] = append(out[pd.ID], map[string]string{"rule": o.Rule, "key": o.Key, "status": o.Status.String(), "pos": o.Pos, "detail": o.Detail})
+				exit = 1
+			}
+		}
+	}
+	b, _ := json.MarshalIndent(out, "", " ")
+	os.Stdout.Write(b)
+	fmt.Println()
+	return exit
 }
